@@ -140,9 +140,9 @@ INPUT = b"ab\ncd\nef"
 class _Run:
     def __init__(self, case):
         self.case = case
-        self.obs = {"call": {"done": False, "w": [], "entered": False, "exc": "", "envdiff": []}, "acts": [],
-                    "ret": {"w": [], "reached": False, "exc": "", "appexc": ""}, "nexts": [], "closes": [],
-                    "gc": {"w": [], "ran": False}, "stray": []}
+        self.obs = {"call": {"q": 0, "done": False, "w": [], "entered": False, "exc": "", "envdiff": [], "envadded": []}, "acts": [],
+                    "ret": {"q": 0, "w": [], "reached": False, "exc": "", "appexc": ""}, "nexts": [], "closes": [],
+                    "gc": {"q": 0, "w": [], "ran": False}, "stray": []}
         self.rec = None
         self.seen = 0
         self.cur = self.obs["call"]["w"]
@@ -150,10 +150,15 @@ class _Run:
         self.started = False
         self.committed = False
         self.pc = 0  # actions started
+        self.tick = 1  # sequence number of the next step
         self.dead = False
         self.curnext = None
         self.curclose = None
         self.write = None
+
+    def stamp(self):
+        self.tick += 1
+        return self.tick - 1
 
     # warnings emitted since the last call go to the step that was open
     def drain(self):
@@ -191,7 +196,7 @@ class _Run:
     # ---------------- application side
     def do_action(self, i, environ, start_response):
         a = self.case["script"][i]
-        o = {"w": [], "exc": "", "fwd": [], "res": NODATUM}
+        o = {"q": self.stamp(), "w": [], "exc": "", "fwd": [], "res": NODATUM}
         self.obs["acts"].append(o)
         self.pc = i + 1
         self.switch(o["w"])
@@ -243,9 +248,8 @@ class _Run:
     def app(self, environ, start_response):
         c = self.obs["call"]
         c["entered"] = True
-        diff = [k for k in self.env0 if k not in environ or environ[k] is not self.env0[k]]
-        diff += [k for k in environ if k not in self.env0]
-        c["envdiff"] = sorted(diff)
+        c["envdiff"] = sorted(k for k in self.env0 if k not in environ or environ[k] is not self.env0[k])
+        c["envadded"] = sorted(k for k in environ if k not in self.env0)
         self.drain()
         r = self.obs["ret"]
         case = self.case
@@ -253,10 +257,10 @@ class _Run:
             for i in range(min(case["cut"], len(case["script"]))):
                 self.do_action(i, environ, start_response)
         except BaseException as e:
-            r["reached"], r["appexc"] = True, type(e).__name__
+            r["reached"], r["appexc"], r["q"] = True, type(e).__name__, self.stamp()
             self.switch(r["w"])
             raise
-        r["reached"] = True
+        r["reached"], r["q"] = True, self.stamp()
         self.switch(r["w"])
         it = _ScriptIter(self, environ, start_response)
         if case["ret"] == "gen":
@@ -288,7 +292,7 @@ class _Run:
 
     # ---------------- the server
     def server_next(self, it):
-        n = {"w": [], "ac": len(self.obs["closes"]) > 0, "r": "", "cls": "", "item": NODATUM, "appr": "", "appcls": "",
+        n = {"q": self.stamp(), "w": [], "ac": len(self.obs["closes"]) > 0, "r": "", "cls": "", "item": NODATUM, "appr": "", "appcls": "",
              "appitem": NODATUM, "act": 0}
         self.obs["nexts"].append(n)
         self.curnext = n
@@ -346,7 +350,7 @@ class _Run:
                         if last in ("stop", "exc"):
                             break
                     for _ in range(s["closes"]):
-                        cl = {"w": [], "exc": "", "appcloses": 0, "na": len(self.obs["acts"]), "nn": len(self.obs["nexts"])}
+                        cl = {"q": self.stamp(), "w": [], "exc": "", "appcloses": 0, "na": len(self.obs["acts"]), "nn": len(self.obs["nexts"])}
                         self.obs["closes"].append(cl)
                         self.curclose = cl
                         self.switch(cl["w"])
@@ -360,6 +364,7 @@ class _Run:
                         self.server_next(it)
                 finally:
                     g = self.obs["gc"]
+                    g["q"] = self.stamp()
                     self.switch(g["w"])
                     it = None
                     self.drain()
